@@ -553,3 +553,31 @@ def replay_precedence(obligation=None, model=None, meta=None):
 
 
 replay_precedence.real_system = True
+
+
+def replay_cfg_check(obligation=None, model=None, meta=None):
+    """native run of the real Config.check: string and numeric fields with declared alternatives -- a declared choice passes, every
+    other value raises ValueError, also one that differs from a choice only in letter case, surrounding blanks or numeric type"""
+    from andes.core.common import Config
+    n = 0
+    for alt, good, bad in ((('NR', 'dishonest', 'NK'), ['NR', 'dishonest', 'NK'], ['nr', 'DISHONEST', 'Dishonest', 'nk', ' NR', 'NR ', 'newton', '', 0]),
+                           (('auto', 'manual'), ['auto', 'manual'], ['AUTO', 'Auto', 'manual ', 1]),
+                           ((0, 1), [0, 1], [2, -1, '0', 'a', 0.5]),
+                           (('trapezoid', 'backeuler'), ['trapezoid'], ['BackEuler', 'Trapezoid'])):
+        for val, ok in [(g, True) for g in good] + [(b, False) for b in bad]:
+            c = Config('Verif')
+            c.add(field=alt[0])
+            c.add_extra('_alt', field=alt)
+            c.field = val
+            n += 1
+            try:
+                r = c.check()
+                raised = False
+            except ValueError:
+                r, raised = None, True
+            # the value is assigned before the first as_dict() call, so the stale cache of finding F20 plays no part
+            if raised == ok or (ok and r is not True):
+                return {'confirmed': True, 'inputs': {'declared alternatives': list(alt), 'value': val},
+                        'observed': 'Config.check() %s; the value is %s the declared alternatives' % ('raised ValueError' if raised else 'returned %r' % (r,), 'one of' if ok else 'not among'),
+                        'native_cmd': "Config('Verif'); add(field=...); add_extra('_alt', field=alternatives); field = value; check()"}
+    return {'confirmed': False, 'tried': n}
